@@ -172,13 +172,21 @@ pub(super) fn __add2(a: &mut [BigDigit], b: &[BigDigit]) -> BigDigit {
     let (c, done) = (false, 0);
 
     let mut carry = c as u8;
+    #[cfg(num_bigint_verif)]
+    if done > 0 {
+        crate::verif_probe::hit(1);
+    }
 
     for (a, b) in a_lo[done..].iter_mut().zip(b[done..].iter()) {
+        #[cfg(num_bigint_verif)]
+        crate::verif_probe::hit(2);
         carry = adc(carry, *a, *b, a);
     }
 
     if carry != 0 {
         for a in a_hi {
+            #[cfg(num_bigint_verif)]
+            crate::verif_probe::hit(3);
             carry = adc(carry, *a, 0, a);
             if carry == 0 {
                 break;
@@ -369,3 +377,19 @@ impl CheckedAdd for BigUint {
 }
 
 impl_sum_iter_type!(BigUint);
+
+#[cfg(num_bigint_verif)]
+pub mod verif {
+    //! Verification-only wrappers around private functions.
+    use alloc::vec::Vec;
+    pub fn add2c(mut a: Vec<u64>, b: &[u64]) -> (Vec<u64>, u64) {
+        let c = super::__add2(&mut a, b);
+        (a, c)
+    }
+    pub fn schoolbook_add(mut a: Vec<u64>, b: &[u64], size: usize) -> (Vec<u64>, bool, usize) {
+        assert!(size <= a.len() && size <= b.len());
+        let (c, done) =
+            unsafe { super::schoolbook_add_assign_x86_64(a.as_mut_ptr(), b.as_ptr(), size) };
+        (a, c, done)
+    }
+}
